@@ -278,6 +278,7 @@ struct Args
     bool verbose = false;
     int max_violations = 3;
     int min_budget = 600;
+    bool isolate = false; // every run in a process of its own (first-use races on process-wide state)
 };
 
 static std::vector<const Workload *> workloads_for(const std::string &prop, const std::string &universe)
@@ -356,10 +357,13 @@ static void worker_main(const Args &a, int k, int W, uint64_t start_r, volatile 
     uint64_t steps = 0, switches = 0, oracle_checks = 0, nviol = 0;
     double t0 = now_s();
     int samples = 0;
-    for (uint64_t r = start_r; r < a.first + a.runs; r += (uint64_t)W)
+    auto write_totals = [&]() {
+        for (auto &c : counters) fprintf(out, "C %s %llu\n", c.first.c_str(), (unsigned long long)c.second);
+        for (auto &c : per_universe) fprintf(out, "U %s %llu\n", c.first.c_str(), (unsigned long long)c.second);
+        fprintf(out, "T %llu %llu %llu\n", (unsigned long long)steps, (unsigned long long)switches, (unsigned long long)oracle_checks);
+    };
+    std::function<void(uint64_t)> process = [&](uint64_t r)
     {
-        if (a.max_seconds > 0 && now_s() - t0 > a.max_seconds) break;
-        progress[k] = r;
         uint64_t run_seed = mix64(pseed, r);
         const Workload *w = choose_workload(ws, run_seed);
         Plan plan = w->gen(run_seed, r, tier);
@@ -385,12 +389,29 @@ static void worker_main(const Args &a, int k, int W, uint64_t start_r, volatile 
         {
             fprintf(out, "H %llu %llu %s\n", (unsigned long long)r, (unsigned long long)run_seed, json_escape(o.msg).c_str());
             fflush(out);
-            continue;
+            return;
+        }
+        if (o.status == 1 && a.isolate)
+        {
+            // this process is no longer pristine: the clean worker above us re-executes, gates and minimises the
+            // candidate in fresh children of its own
+            Plan rec = plan;
+            rec.sched_recorded = true;
+            rec.schedule = o.schedule;
+            rec.expect = o.cls;
+            std::string tmp = a.replay_dir + "/.isolate." + std::to_string(getppid()) + ".tmp";
+            mkdir(a.replay_dir.c_str(), 0777);
+            std::ofstream f(tmp);
+            f << plan_to_text(rec, w->op_names, w->n_op_names);
+            f.close();
+            fflush(out);
+            fclose(out);
+            _exit(9);
         }
         if (o.status == 1)
         {
             ++nviol;
-            if ((int)nviol > a.max_violations) { fprintf(out, "X %llu %s\n", (unsigned long long)r, o.cls.c_str()); fflush(out); continue; }
+            if ((int)nviol > a.max_violations) { fprintf(out, "X %llu %s\n", (unsigned long long)r, o.cls.c_str()); fflush(out); return; }
             // gate 1: the recorded schedule reproduces the same event log and class, twice.  A system under
             // test that has undefined behaviour (use of freed memory after a lost race) may fail differently
             // on each execution: such a candidate is kept unminimised and flagged, provided it fails again.
@@ -411,7 +432,7 @@ static void worker_main(const Args &a, int k, int W, uint64_t start_r, volatile 
                     fprintf(out, "H %llu %llu gate1: violation %s did not reproduce in-process (kept at %s)\n", (unsigned long long)r,
                             (unsigned long long)run_seed, o.cls.c_str(), path.c_str());
                 fflush(out);
-                continue;
+                return;
             }
             Tester t{w, o.cls, a.min_budget};
             // the data-race detector de-duplicates nothing (suppress_equal_* = 0), so in-process works for it too
@@ -424,11 +445,72 @@ static void worker_main(const Args &a, int k, int W, uint64_t start_r, volatile 
                     rec.schedule.size(), min.schedule.size(), t.used, json_escape(om.status == 1 ? om.msg : o.msg).c_str());
             fflush(out);
         }
+    };
+    for (uint64_t r = start_r; r < a.first + a.runs; r += (uint64_t)W)
+    {
+        if (a.max_seconds > 0 && now_s() - t0 > a.max_seconds) break;
+        progress[k] = r;
+        if (a.isolate)
+        {
+            // the run executes in a child of this (still untouched) worker: nothing of the library has run in it before
+            fflush(out);
+            pid_t c = fork();
+            if (c == 0)
+            {
+                process(r);
+                write_totals();
+                fclose(out);
+                if (__llvm_profile_write_file) __llvm_profile_write_file();
+                _exit(0);
+            }
+            int st = 0;
+            waitpid(c, &st, 0);
+            fseek(out, 0, SEEK_END);
+            if (WIFEXITED(st) && WEXITSTATUS(st) == 9)
+            {
+                // a candidate found in the child: gate and minimise it from here, every execution in a fresh process
+                std::string tmp = a.replay_dir + "/.isolate." + std::to_string(getpid()) + ".tmp";
+                std::ifstream f(tmp);
+                std::stringstream ss;
+                ss << f.rdbuf();
+                std::string text = ss.str(), prop, universe, err;
+                {
+                    std::istringstream is(text);
+                    std::string line;
+                    while (std::getline(is, line))
+                    {
+                        if (line.rfind("prop ", 0) == 0) prop = line.substr(5);
+                        if (line.rfind("universe ", 0) == 0) universe = line.substr(9);
+                    }
+                }
+                const Workload *w = find_workload(prop, universe);
+                Plan p;
+                if (w && plan_from_text(text, p, w->op_names, w->n_op_names, err) && ++nviol <= (uint64_t)a.max_violations)
+                {
+                    Tester t{w, p.expect, std::min(a.min_budget, 120)};
+                    t.isolated = true;
+                    if (t.fails(p) && t.fails(p))
+                    {
+                        Plan min = minimise(t, p);
+                        min.expect = p.expect;
+                        std::string path = write_replay(a, *w, min);
+                        fprintf(out, "V %llu %llu %s %s %s | ops %zu->%zu sched %zu->%zu tests %d (each in a fresh process) | found in an isolated run\n", (unsigned long long)r,
+                                (unsigned long long)p.seed, w->universe.c_str(), p.expect.c_str(), path.c_str(), p.ops.size(), min.ops.size(), p.schedule.size(), min.schedule.size(), t.used);
+                    }
+                    else
+                        fprintf(out, "H %llu %llu gate1: candidate %s of an isolated run did not fail again in two fresh processes\n", (unsigned long long)r, (unsigned long long)p.seed, p.expect.c_str());
+                    fflush(out);
+                }
+                unlink(tmp.c_str());
+                continue;
+            }
+            if (!(WIFEXITED(st) && WEXITSTATUS(st) == 0)) _exit(WIFSIGNALED(st) ? 128 + WTERMSIG(st) : WEXITSTATUS(st));
+            continue;
+        }
+        process(r);
     }
     progress[k] = ~0ULL;
-    for (auto &c : counters) fprintf(out, "C %s %llu\n", c.first.c_str(), (unsigned long long)c.second);
-    for (auto &c : per_universe) fprintf(out, "U %s %llu\n", c.first.c_str(), (unsigned long long)c.second);
-    fprintf(out, "T %llu %llu %llu\n", (unsigned long long)steps, (unsigned long long)switches, (unsigned long long)oracle_checks);
+    write_totals();
     fprintf(out, "D\n");
     fclose(out);
     if (__llvm_profile_write_file) __llvm_profile_write_file(); // coverage build only (tools/coverage.sh)
@@ -731,6 +813,7 @@ int main(int argc, char **argv)
         else if (s == "--max-seconds") a.max_seconds = std::atof(val().c_str());
         else if (s == "--max-violations") a.max_violations = std::atoi(val().c_str());
         else if (s == "--min-budget") a.min_budget = std::atoi(val().c_str());
+        else if (s == "--isolate") a.isolate = true;
         else if (s == "-v") a.verbose = true;
         else if (a.file.empty()) a.file = s;
     }
